@@ -38,7 +38,7 @@ import collections
 NT = collections.namedtuple('NT', ['w', 'b'])     # a generic registered pytree whose field order is not key order
 
 
-def build_real(heap, nnx, mods, vts):
+def build_real(heap, nnx, mods, vts, reverse_dicts=False):
   """heap: list of objects (1-based ids in slots).  Returns (root, objs by id)."""
   objs = {}
 
@@ -67,7 +67,7 @@ def build_real(heap, nnx, mods, vts):
     if k == 'D':
       x = {}
       objs[i] = x
-      for slot, key in enumerate(KEYS[k]):
+      for slot, key in (list(enumerate(KEYS[k]))[::-1] if reverse_dicts else enumerate(KEYS[k])):
         v = o['s'][slot]
         if v != 0:
           x[key] = build(v) if v > 0 else leaf(v)
